@@ -395,7 +395,7 @@ class Signal(object):
             The number of points over which values are averaged
         """
 
-        mot = self.values
+        mot = np.array(self.values)
 
         for i in range(len(mot)):
             if i < width / 2:
